@@ -406,6 +406,36 @@ def check_splice(facts):
                     probs.append("the tail is not text[m.end()..] (%s)" % (post[0][2],))
                 if pre[0][0] not in b.dom()[post[0][0]]:
                     probs.append("the tail is pushed before the head")
+        # what is inserted: the closure variants splice the closure's result verbatim (it is text, not a template), the template
+        # variants go through expand_replacement
+        closure_calls = [(bb, t) for bb, t in b.iter_calls() if (t.get("callee") or "").split("::")[-1] in ("call", "call_mut", "call_once")
+                         and re.search(r"ops::(function::)?Fn(Once|Mut)?::call", t.get("callee") or "")]
+        expands = [(bb, t) for bb, t in b.iter_calls() if (t.get("callee") or "").endswith("expand_replacement")]
+        if closure_calls:
+            if expands:
+                probs.append("the result of the replacement closure is run through the `$` template expander (line %s): the closure returns "
+                             "text, and a `$$`, `$1` or `${name}` in it must come out verbatim as it does in the sibling closure variant" % expands[0][1].get("line"))
+            else:
+                verb = False
+                for bb, t in pushes:
+                    if len(t["args"]) > 1 and t["args"][1].get("k") in ("copy", "move"):
+                        l_ = t["args"][1]["pl"]["l"]
+                        for _ in range(6):
+                            d_ = b.single_def(b.root_of(l_)[0])
+                            if d_ and d_[2] == "call" and d_[0] in [c[0] for c in closure_calls]:
+                                verb = True
+                                break
+                            if d_ and d_[2] == "call" and d_[3]["args"] and d_[3]["args"][0].get("k") in ("copy", "move"):
+                                l_ = d_[3]["args"][0]["pl"]["l"]   # deref / as_str / borrow of the returned String
+                                continue
+                            if d_ and d_[2] == "assign" and d_[3]["rv"]["k"] in ("ref", "use"):
+                                l_ = (d_[3]["rv"].get("pl") or d_[3]["rv"]["op"].get("pl") or {"l": l_})["l"]
+                                continue
+                            break
+                if not verb:
+                    probs.append("no push_str of the replacement closure's result was found (it must be spliced verbatim)")
+        elif not expands:
+            probs.append("the template variant does not expand the replacement through expand_replacement")
         if probs:
             r.fail(key, "; ".join(probs) + ": unmatched text would be lost, duplicated or reordered", facts.loc(fn))
         else:
